@@ -33,6 +33,8 @@ pub struct Outcome {
     /// aggregate key per epoch as found in certificates / published signer lists (C06)
     pub avk_by_epoch: std::collections::BTreeMap<u64, String>,
     pub registration_acks: Vec<(u32, u16, usize)>,
+    /// violations attributed to a known finding, with the trace length at which each was seen
+    pub known_hits: Vec<(oracle::KnownHit, usize)>,
 }
 
 /// Execute a scenario: either draw events from the seeded driver or feed a recorded trace.
@@ -49,6 +51,9 @@ pub struct ExecOptions {
     /// after a replayed prefix: let the seeded driver continue for this many events
     pub continue_steps: usize,
     pub continue_salt: u64,
+    /// counterfactual for the known finding C16-dmq-dedup-ignores-sender: no deduplicating DMQ
+    /// client, no attribution
+    pub dmq_without_dedup: bool,
 }
 
 pub fn execute_with(sc: &Scenario, replay: Option<&[Event]>, keep_log: bool, opts: &ExecOptions) -> Outcome {
@@ -56,6 +61,11 @@ pub fn execute_with(sc: &Scenario, replay: Option<&[Event]>, keep_log: bool, opt
     w.db_fault.lock().unwrap().record = opts.record_statements;
     w.install_db_hook();
     let mut oracle = Oracle::new(&sc.property);
+    if opts.dmq_without_dedup {
+        w.agg.settings.dmq_dedup = false;
+        oracle.attribute_known = false;
+    }
+    let mut known_hits: Vec<(oracle::KnownHit, usize)> = vec![];
     let mut trace: Vec<Event> = vec![];
     let mut log: Vec<String> = vec![];
     let mut fp = Fingerprint::new();
@@ -79,6 +89,9 @@ pub fn execute_with(sc: &Scenario, replay: Option<&[Event]>, keep_log: bool, opt
             }
             trace.push(ev);
             oracle.check(w);
+            while known_hits.len() < oracle.known_hits.len() {
+                known_hits.push((oracle.known_hits[known_hits.len()].clone(), trace.len()));
+            }
         }
         oracle.found.is_empty()
     };
@@ -194,6 +207,7 @@ pub fn execute_with(sc: &Scenario, replay: Option<&[Event]>, keep_log: bool, opt
         statements_by_step,
         avk_by_epoch: oracle.avk_by_epoch.clone(),
         registration_acks: w.deliveries.iter().filter(|d| matches!(d.msg.kind, world::MsgKind::Registration { .. })).map(|d| (d.msg.id, d.status, d.step)).collect(),
+        known_hits,
     }
 }
 
@@ -327,6 +341,7 @@ fn run_c15(ctx: &RunCtx) -> RunReport {
             quiesce: true,
             continue_steps: 40 + rng.index(60),
             continue_salt: rng.next_u64(),
+            dmq_without_dedup: false,
         };
         // repeated stops: a second crash shortly after the restart
         if rng.chance(0.25) {
@@ -587,6 +602,9 @@ impl Engine for NetEngine {
                 "log": log,
             }));
         }
+        if out.found.is_empty() {
+            known_hit_violations(&sc, &out, &mut report);
+        }
         if ctx.want_sample {
             let kinds: Vec<&str> = out.trace.iter().map(|e| e.kind()).collect();
             report.sample = Some(json!({"run": ctx.run, "scenario": sc, "event_kinds": kinds}));
@@ -624,8 +642,35 @@ impl Engine for NetEngine {
                 finding: None,
             });
         }
+        if out.found.is_empty() {
+            known_hit_violations(&sc, &out, &mut report);
+        }
         report
     }
+}
+
+/// A run that met the trigger of a known finding (and nothing else): confirm the attribution by a
+/// counterfactual re-run of the trace up to the hit with the finding's mechanism taken out (the
+/// DMQ consumer reads the node without the deduplicating client, nothing is attributed). If the
+/// violation is still there it is not that finding's: it is reported as a plain violation.
+fn known_hit_violations(sc: &Scenario, out: &Outcome, report: &mut RunReport) {
+    let Some((hit, trace_len)) = out.known_hits.first() else { return };
+    let prefix = &out.trace[..(*trace_len).min(out.trace.len())];
+    let counterfactual = execute_with(sc, Some(prefix), false, &ExecOptions { dmq_without_dedup: true, ..Default::default() });
+    let still_there = counterfactual.found.iter().any(|f| f.clause == hit.clause);
+    report.violations.push(Violation {
+        property: sc.property.clone(),
+        clause: hit.clause.clone(),
+        detail: format!("step {}: {}{}", hit.step, hit.detail, if still_there { " [still violated without the deduplicating client: not attributable to the known finding]" } else { "" }),
+        finding: if still_there { None } else { Some(hit.finding.clone()) },
+    });
+    let check = execute(sc, Some(prefix), true);
+    report.replay = Some(json!({
+        "scenario": sc,
+        "trace": prefix,
+        "original_trace_len": out.trace.len(),
+        "log": check.log,
+    }));
 }
 
 fn main() {
